@@ -439,8 +439,12 @@ fn name_de<T: AsRef<str> + serde::de::DeserializeOwned>(s: &str) -> S {
     }
 }
 
-fn name_res<T: AsRef<str>, E>(r: Result<T, E>) -> S {
+fn name_res<T: AsRef<str> + std::fmt::Display + serde::Serialize, E>(r: Result<T, E>) -> S {
     match r {
+        // the three views of a name (AsRef<str>, Display, serde) must show the same text
+        Ok(n) if n.to_string() != n.as_ref() || serde_json::to_string(&n).ok() != serde_json::to_string(n.as_ref()).ok() => {
+            S::tag("views-differ", vec![S::str(n.as_ref()), S::str(&n.to_string())])
+        }
         Ok(n) => S::tag("ok", vec![S::str(n.as_ref())]),
         Err(_) => S::a("err"),
     }
@@ -591,13 +595,26 @@ impl St {
                     Ok(t) => {
                         // from_str must agree
                         let t2 = MarkerTree::from_str(&s).ok();
-                        let same = t2.as_ref() == Some(&t);
+                        // ... and so must the generic entry point, whatever URL type the error would carry
+                        let t3 = MarkerTree::parse_str::<VerbatimUrl>(&s).ok();
+                        let t4 = MarkerTree::parse_str::<url::Url>(&s).ok();
+                        let same = t2.as_ref() == Some(&t) && t3.as_ref() == Some(&t) && t4.as_ref() == Some(&t);
                         let mut v = self.push(t);
                         v.push(warnings(&w));
                         v.push(S::bool(same));
                         S::tag("ok", v)
                     }
-                    Err(e) => error(&e),
+                    Err(e) => {
+                        // the other entry points must refuse it too, with the same message and span
+                        let shown = e.to_string();
+                        let e2 = MarkerTree::from_str(&s).err().map(|x| x.to_string());
+                        let e3 = MarkerTree::parse_str::<VerbatimUrl>(&s).err().map(|x| x.to_string());
+                        let e4 = MarkerTree::parse_str::<url::Url>(&s).err().map(|x| x.to_string());
+                        if e2.as_ref() != Some(&shown) || e3.as_ref() != Some(&shown) || e4.as_ref() != Some(&shown) {
+                            return S::tag("routes-differ", vec![S::str(&shown), S::str(&format!("{e2:?} / {e3:?} / {e4:?}"))]);
+                        }
+                        error(&e)
+                    }
                 }
             }
             "expr" => {
@@ -693,7 +710,8 @@ impl St {
                 };
                 // PartialOrd and the comparison operators must be the order Ord gives
                 let po = a.partial_cmp(b) == Some(a.cmp(b)) && (a < b) == (a.cmp(b) == std::cmp::Ordering::Less) && (a > b) == (a.cmp(b) == std::cmp::Ordering::Greater)
-                    && (a <= b) == (a.cmp(b) != std::cmp::Ordering::Greater);
+                    && (a <= b) == (a.cmp(b) != std::cmp::Ordering::Greater)
+                    && a.kind().partial_cmp(&b.kind()) == Some(a.cmp(b)) && a.kind().cmp(&b.kind()) == a.cmp(b) && (a.kind() == b.kind()) == (a == b);
                 S::tag("ok", vec![S::bool(a == b), S::a(c), S::bool(h(a) == h(b)), S::bool(po)])
             }
             "eval" => {
@@ -963,7 +981,8 @@ impl St {
                             std::cmp::Ordering::Equal => "Eq",
                             std::cmp::Ordering::Greater => "Gt",
                         };
-                        S::tag("ok", vec![S::bool(a == b), S::a(c(a.cmp(&b))), S::a(c(b.cmp(&a))), S::bool(hu(&a) == hu(&b)), S::bool(a.raw() == b.raw())])
+                        S::tag("ok", vec![S::bool(a == b), S::a(c(a.cmp(&b))), S::a(c(b.cmp(&a))), S::bool(hu(&a) == hu(&b)), S::bool(a.raw() == b.raw()),
+                            S::bool(a.partial_cmp(&b) == Some(a.cmp(&b)) && (a < b) == (a.cmp(&b) == std::cmp::Ordering::Less) && (a.to_url() == b.to_url()) == (a.raw() == b.raw()) && a.clone().into_url() == *a.raw())])
                     }
                     _ => S::a("none"),
                 }
